@@ -3,13 +3,24 @@
 Tie: correspondence (C).  Real `BIOGEME` objects with `save_iterations` on receive generated
 histories of `calculate_likelihood_and_derivatives`; the file `__<model>.iter` is read after
 every call and compared with the Lean model (`IterFile.trace`) and with the property oracle
-(best finite point so far, complete lines, bit-for-bit values).  Sessions: ONE object receives generated sequences
-of public calls (direct evaluations with every combination of scaled/hessian/bhhh, check_derivatives, the
-finite-difference hessian, estimate, quick_estimate) interleaved with assignments of modelName; every derivative
-evaluation is recorded (wrapped public method) with all iteration files after it, and compared with the session model
-(`IterFile.strace`) and with the session oracle (`oracle_session`).  The write protocol is recorded
-from the real code (harness-side wrapping of `open`/`write`/`os.replace`), checked to be the
-protocol of theorem `C15.crash_safe`, and every crash point is injected for real.
+(best finite point so far, complete lines, bit-for-bit values).  Sessions: the 1-3 objects of ONE working directory
+(often sharing a model name) receive generated sequences of public calls (direct evaluations with every combination of
+scaled/hessian/bhhh, check_derivatives, the finite-difference hessian, estimate - several times, before and after renames,
+with each of the optimisation algorithms -, quick_estimate, estimate with bootstrapping) interleaved with assignments of
+modelName; every derivative evaluation is recorded (wrapped public method) with all iteration files after it, and compared
+with the world model (`IterFile.wtrace`) and with the session oracle (`oracle_session`).
+
+Crash points (round 3): one fresh interpreter per experiment forks one child per crash point.  The child records the REAL
+primitives of the save (the file object returned by `open`: write / writelines / flush / close with the real buffering;
+`os.replace` / `os.rename` / `os.remove`) and is stopped with `os._exit` right after its k-th primitive (buffered text is
+lost, as for a killed process); the parent reads the directory and a second child performs the real restart
+(`_load_saved_iteration`, then a full `estimate()`).  The Lean model of the recorded primitives (`IterFile.crashB` for
+every k, with user-space buffers and handles that follow a renamed file) decides which prefixes are unsafe
+(`unsafePoints`, sound by `C15.unsafePoints_nil_safe`), predicts the directory at every crash point (compared with the
+real one) and names the shape (`protocolB`: `C15.crash_safe_buffered`; family `tmpThenReplace`:
+`C15.tmp_then_replace_safe`; `protocolReplaceBeforeClose`: `C15.replace_before_close_unsafe`).  A second, independent stream
+stops the child before every executed LINE of the saving function.  The property oracle (`oracle_crash`) is applied to the
+real directory at every crash point; a violation is reported with that crash point as replay.
 """
 
 from __future__ import annotations
@@ -30,34 +41,54 @@ READY = True
 MANIFEST = dict(
     text='Proof (Lean 4): for every history of evaluations the iteration file holds the best evaluated point with finite gradient '
     '(invariant by induction, C15.file_is_best / every_prefix_is_best / never_below_start); re-reading a rendered line returns name and value '
-    '(C15.parse_render, names may contain "="); restart overrides exactly the saved names; the write protocol tmp-then-rename is safe at every crash point '
-    '(C15.crash_safe, all k, all chunk lists). Tie: correspondence on real BIOGEME objects (file read after every call, real restart, recorded write protocol '
-    'compared with the model protocol, every crash point injected for real). Sessions on one object (every entry point that evaluates derivatives, '
-    'scaled and unscaled calls mixed, model renamed before/after first use): the best point is in the file of the name the object had when it was evaluated, '
-    'the scaled flag is irrelevant, an evaluation touches only the file of the current name (C15.session_*), compared with the real files after every recorded evaluation.',
+    '(C15.parse_render, names may contain "="); restart overrides exactly the saved names (a saved 0.0 included). Write protocol with user-space buffers '
+    '(write = buffered, text in the file only after flush/close, an open handle follows a renamed file): tmp-close-rename is safe at every crash point '
+    '(C15.crash_safe_buffered, all k, all chunk lists), so is every protocol "anything on the temporary file, then one rename" (C15.tmp_then_replace_safe, '
+    'C15.crash_before_publish_keeps_file); the shape "rename inside the with block" is unsafe for every non-empty text (C15.replace_before_close_unsafe), '
+    'rewriting in place too (C15.in_place_unsafe); the decision taken by the driver on a recorded trace is sound (C15.unsafePoints_nil_safe). '
+    'Sessions (C15.session_*): the best point is in the file of the name the object had when it was evaluated, the scaled flag is irrelevant, an evaluation '
+    'touches only the file of the current name, the first finite point after estimate() is saved under the current name (estimate, rename, estimate), '
+    'evaluations on bootstrap resamples change nothing (repaired behaviour, finding FC15-boot). Several objects in one directory (C15.world_*): every file '
+    'holds a point evaluated with finite gradient by one of the objects, objects do not disturb each other\'s marker. '
+    'Tie: correspondence on real BIOGEME objects (file read after every call, real restart); real primitives recorded with the real buffering, the model of the '
+    'recorded primitives compared with the real directory at EVERY crash point (child stopped with os._exit after the k-th primitive), real '
+    '_load_saved_iteration + estimate() after every stop; independent crash points before every executed line of the saving function; sessions on the objects of '
+    'one directory through every entry point that evaluates derivatives (8 optimisation algorithms, bootstrap, quick_estimate, renames, shared model names); '
+    '_load_saved_iteration on files not written by the model (other parameter sets, repeated names, blanks, values exactly 0).',
     design='DESIGN.md §5 C15',
-    technique='Lean 4 theorems over an executable state-machine model + differential correspondence with real BIOGEME runs and crash injection',
-    note='Partial: CPython float repr/parse round trip and OS rename atomicity are trusted; f and the finite-gradient flag come from the engine.',
+    technique='Lean 4 theorems over an executable state-machine model + differential correspondence with real BIOGEME runs and crash injection at recorded primitives and at executed lines',
+    note='Partial: CPython float repr/parse round trip and OS rename atomicity are trusted; f and the finite-gradient flag come from the engine; '
+    'files larger than one I/O buffer are checked by the oracle only (the model has no automatic flush); known finding FC15-boot masks what follows a bootstrap in the same session.',
 )
 
 TRUSTED = [
     'CPython str(float)/float() round trip (values are opaque tokens in the model)',
     'the engine computes f and the gradient; the model receives the real f and the finite-gradient flag',
-    'OS: rename is atomic; a stopped process leaves a prefix of the issued write operations',
+    'OS: rename is atomic; a stopped process leaves on disk what the completed primitives put there and loses the user-space buffers (os._exit in a forked child reproduces it); '
+    'a machine crash that loses flushed-but-not-synced data is outside the model',
+    'the recorders see the file object returned by open()/io.open() for paths containing ".iter" and os.replace/rename/remove/unlink; a save that bypasses them '
+    '(os.open/os.write) is seen by the comparison of the final directory with the model and by the crash points by executed line',
 ]
 ASSUMPTIONS = [
     'likelihood values compared by >= are not NaN (GeOK hypothesis of the theorems)',
     'sessions: the sample size is 4, so the value returned by a scaled call times N is exactly the log likelihood on the data '
-    '(checked against calculate_likelihood on every recorded point)',
+    '(checked against calculate_likelihood on every recorded point evaluated on the estimation data)',
+    'crash model: iteration files smaller than one I/O buffer (no automatic flush); larger files go through the oracle only',
+    '"best evaluated so far" is read per estimation of one object: another object (or a new estimation) sharing the model name starts a new marker',
 ]
 RULE = (
     'histories of 1-8 evaluations (improving, worsening, tied, non-finite) on 1-3 parameter concave '
     'likelihoods with adversarial names; non-trivial = history with >= 1 worsening or non-finite step after a finite one; '
-    'sessions of 3-9 public operations on one object (eval with random scaled/hessian/bhhh flags, check_derivatives, finite-difference hessian, '
-    'estimate, quick_estimate, modelName assignments): non-trivial = >= 2 recorded evaluations and (finite evaluations with both scaled flags, or a rename after the first evaluation)'
+    'sessions of 3-9 public operations on the 1-3 objects of one directory (eval with random scaled/hessian/bhhh flags, check_derivatives, finite-difference hessian, '
+    'estimate up to 3 times, quick_estimate, bootstrap, modelName assignments, points with coordinates exactly 0.0/-0.0): non-trivial = >= 2 recorded evaluations and '
+    '(finite evaluations with both scaled flags, or a rename after the first evaluation, or two objects evaluating under one model name); '
+    'crash experiments: one save over nothing / over an existing file, every primitive and every executed line as crash point; '
+    'load: 0-5 hand-written lines over the names of the model and foreign names'
 )
 
-TOML = '[Estimation]\nsave_iterations = "True"\n'
+# max_iterations: every optimisation algorithm stops (a degenerate bootstrap resample can keep some of them busy for
+# minutes); the number of iterations is irrelevant for the property
+TOML = '[SimpleBounds]\nmax_iterations = 40\n[Estimation]\nsave_iterations = "True"\nbootstrap_samples = 3\n'
 
 NAME_POOL = ['b10', 'b2', 'alpha', 'zeta', 'B_TIME', 'asc=1', 'β_coût', 'x y', 'a=b=c', 'Z', 'a']
 
@@ -247,29 +278,51 @@ def gen_point(rng, k, pts, kinds=('rand', 'rand', 'rand', 'repeat', 'nonfinite',
         x = [0.16 * (j + 1) + rng.uniform(-0.05, 0.05) for j in range(k)]
         x[-1] = -0.88 + rng.uniform(-0.05, 0.05)
         return x
+    if kind == 'zero':
+        # coordinates that are exactly 0.0 / -0.0 (the default values of the model are not 0)
+        x = [rng.choice([0.0, 0.0, -0.0, 0.16 * (j + 1)]) for j in range(k)]
+        x[rng.randrange(k)] = rng.choice([0.0, -0.0])
+        return x
     return [rng.choice([rng.uniform(-1, 0.9), rng.randint(-8, 7) / 8.0]) for _ in range(k)]
 
 
 def gen_session(rng, k):
-    """operations on one BIOGEME object: direct evaluations with every combination of scaled/hessian/bhhh (array
-    or list argument), check_derivatives, finite-difference hessian, estimate, quick_estimate, and assignments of
-    modelName at any moment (before the first use, after it, back to an earlier name)"""
+    """operations on the BIOGEME objects of one working directory (1-3 objects, often sharing a model name): direct
+    evaluations with every combination of scaled/hessian/bhhh (array or list argument), check_derivatives,
+    finite-difference hessian, estimate (several times, before and after renames), quick_estimate, estimate with
+    bootstrapping, and assignments of modelName at any moment (before the first use, after it, back to an earlier name).
+    Returns (names of the objects at construction, ops); every op has the number 'obj' of its object."""
     name0 = None if rng.random() < 0.45 else rng.choice(MODEL_NAMES)
-    shape = rng.choice(['free', 'free', 'late_name', 'mixed_scale'])
+    shape = rng.choice(['free', 'free', 'late_name', 'mixed_scale', 'objects', 'est_rename_est', 'zero_start'])
+    n_obj = 1
+    if shape == 'objects' or rng.random() < 0.15:
+        n_obj = rng.choice([2, 2, 3])
+    objs = [name0]
+    for _ in range(n_obj - 1):
+        objs.append(rng.choice([name0, name0, rng.choice(MODEL_NAMES), None]))
     n = rng.randint(3, 9)
     ops, pts = [], []
     first_scaled = rng.random() < 0.5
     n_est = 0
+    max_est = 3 if shape == 'est_rename_est' else 2
     for i in range(n):
         r = rng.random()
+        o = rng.randrange(n_obj)
         if shape == 'late_name' and i == 0:
             r = rng.choice([0.0, 0.0, 0.75])
         if shape == 'late_name' and i == 1:
             r = 0.6
         if shape == 'mixed_scale':
             r = r * 0.62                                     # evaluations and renames only
+        if shape == 'est_rename_est':
+            r = [0.95, 0.6, 0.95, r, 0.6, 0.95, r, r, r][i]
+        if shape == 'zero_start' and i < 2:
+            r = [0.0, 0.95][i]
         if r < 0.55:
-            x = gen_point(rng, k, pts)
+            kinds = ('rand', 'rand', 'rand', 'repeat', 'nonfinite', 'better', 'better', 'zero')
+            if shape == 'zero_start' and i == 0:
+                kinds = ('zero',)
+            x = gen_point(rng, k, pts, kinds)
             pts.append(x)
             scaled = rng.random() < 0.5
             if shape == 'mixed_scale':
@@ -284,55 +337,108 @@ def gen_session(rng, k):
         elif r < 0.88:
             x = gen_point(rng, k, pts, kinds=('rand', 'better'))
             ops.append({'k': 'fdh', 'x': x})
-        elif n_est < 1:
+        elif n_est < max_est:
             n_est += 1
-            ops.append({'k': rng.choice(['estimate', 'estimate', 'quick_estimate'])})
+            if rng.random() < 0.25:
+                ops.append({'k': 'randinit', 'seed': rng.randrange(1000)})     # set_random_init_values -> change_init_values
+                ops[-1]['obj'] = o
+            ops.append({'k': rng.choice(['estimate', 'estimate', 'estimate', 'quick_estimate', 'quick_estimate', 'bootstrap'])})
+            if ops[-1]['k'] == 'estimate' and rng.random() < 0.2:
+                ops[-1]['recycle'] = True          # no pickle file exists: the estimation is performed
         else:
             ops.append({'k': 'rename', 'name': rng.choice(MODEL_NAMES)})
-    return name0, ops
+        ops[-1]['obj'] = o
+    boots = [i for i, op in enumerate(ops) if op['k'] == 'bootstrap']
+    if boots and rng.random() < 0.7:
+        ops.append(ops.pop(boots[0]))        # mostly as the last operation: what follows it is masked by finding FC15-boot
+    return objs, ops
 
 
-def run_session(names, name0, ops, rows=4):
-    """real code: every derivative evaluation of the object is recorded by wrapping the public method (point, flags,
-    model name at the call, log likelihood on the data, finite gradient, all iteration files after the call)"""
+WHERE_SESSION = 'iteration file over a session on one object (entry points, scaled flags, modelName)'
+WHERE_BOOT = 'estimate(run_bootstrap=True): iteration file while the bootstrap samples are estimated'
+
+
+def norm_objs(name0):
+    """the names of the objects at construction: a case of earlier rounds gives the name of its single object"""
+    return list(name0) if isinstance(name0, list) else [name0]
+
+
+# simple_bounds_BFGS is left out: on a degenerate bootstrap resample it does not return within minutes
+ALGOS = [None, None, None, 'scipy', 'LS-newton', 'TR-newton', 'LS-BFGS', 'TR-BFGS', 'simple_bounds_newton']
+
+
+def pick_algo(rng, ops):
+    """the optimisation algorithm of a session; sessions that bootstrap use the default one (resamples of 4 rows are often
+    degenerate and some algorithms then run for minutes)"""
+    a = rng.choice(ALGOS)
+    return None if any(o['k'] == 'bootstrap' for o in ops) else a
+
+
+def toml_for(algo):
+    return TOML if not algo else TOML + f'optimization_algorithm = "{algo}"\n'
+
+
+def run_session(names, name0, ops, rows=4, algo=None):
+    """real code: every derivative evaluation of the objects is recorded by wrapping the public method (object, point,
+    flags, model name at the call, log likelihood, finite gradient, whether the engine held a bootstrap resample, all
+    iteration files after the call)"""
     import biogeme.biogeme as bio
 
     events, errors = [], []
-    with core.scratch(TOML):
-        B = build(names, name0, rows=rows)
-        B.generate_html = False
-        B.generate_pickle = False
-        sorted_names = list(B.free_beta_names)
-        start_name = B.modelName
-        n_obs = float(B.database.get_sample_size())
-        cur = {'op': None, 'first': None}
+    with core.scratch(toml_for(algo)):
+        Bs = [build(names, nm, rows=rows) for nm in norm_objs(name0)]
+        for B in Bs:
+            B.generate_html = False
+            B.generate_pickle = False
+        sorted_names = list(Bs[0].free_beta_names)
+        start_names = [B.modelName for B in Bs]
+        n_obs = float(Bs[0].database.get_sample_size())
+        cur = {'op': None, 'first': None, 'boot': False, 'obj': None}
         orig = bio.BIOGEME.calculate_likelihood_and_derivatives
         orig_l = bio.BIOGEME.calculate_likelihood
 
+        def index_of(obj):
+            for i, B in enumerate(Bs):
+                if obj is B:
+                    return i
+            return None
+
         def spy(self, x, scaled, hessian=False, bhhh=False, batch=None):
-            if self is not B:
+            oi = index_of(self)
+            if oi is None:
                 return orig(self, x, scaled, hessian, bhhh, batch)
             name = self.modelName
             xs = [float(v) for v in x]
-            if cur['first'] is None:
+            if cur['first'] is None and oi == cur['obj']:
                 cur['first'] = xs
             r = orig(self, x, scaled, hessian, bhhh, batch)
             f = float(r.function) * (n_obs if scaled else 1.0)
             g = np.linalg.norm(r.gradient)
-            events.append({'k': 'eval', 'op': cur['op'], 'name': name, 'x': xs, 'scaled': bool(scaled), 'hessian': bool(hessian),
-                           'bhhh': bool(bhhh), 'f': f, 'finite': bool(np.isfinite(g)), 'files': iter_files()})
+            events.append({'k': 'eval', 'op': cur['op'], 'obj': oi, 'name': name, 'x': xs, 'scaled': bool(scaled), 'hessian': bool(hessian),
+                           'bhhh': bool(bhhh), 'f': f, 'finite': bool(np.isfinite(g)), 'boot': bool(cur['boot'] and oi == cur['obj']),
+                           'files': iter_files()})
             return r
 
         def spy_l(self, x, *a, **kw):
-            if self is B and cur['first'] is None:
+            if index_of(self) == cur['obj'] and cur['first'] is None:
                 cur['first'] = [float(v) for v in x]
             return orig_l(self, x, *a, **kw)
 
+        def resampler(real):
+            def f(*a, **kw):
+                cur['boot'] = True            # from now on the engine holds a resample (until estimate() returns)
+                return real(*a, **kw)
+            return f
+
+        for B in Bs:
+            B.database.sample_with_replacement = resampler(B.database.sample_with_replacement)
         bio.BIOGEME.calculate_likelihood_and_derivatives = spy
         bio.BIOGEME.calculate_likelihood = spy_l
         try:
             for i, op in enumerate(ops):
-                cur['op'], cur['first'] = i, None
+                oi = op.get('obj', 0)
+                B = Bs[oi]
+                cur.update(op=i, first=None, boot=False, obj=oi)
                 k = op['k']
                 ev = None
                 try:
@@ -345,12 +451,20 @@ def run_session(names, name0, ops, rows=4):
                         B.likelihood_finite_difference_hessian(np.array(op['x'], dtype=float))
                     elif k == 'rename':
                         B.modelName = op['name']
-                        events.append({'k': 'rename', 'op': i, 'name': op['name'], 'files': iter_files()})
-                    elif k == 'estimate':
+                        events.append({'k': 'rename', 'op': i, 'obj': oi, 'name': op['name'], 'files': iter_files()})
+                    elif k in ('estimate', 'bootstrap'):
                         files = iter_files()
-                        ev = {'k': 'reset', 'op': i, 'name': B.modelName, 'file_before': files.get(B.modelName), 'files': files, 'first': None}
+                        ev = {'k': 'reset', 'op': i, 'obj': oi, 'name': B.modelName, 'file_before': files.get(B.modelName), 'files': files, 'first': None}
                         events.append(ev)
-                        B.estimate()
+                        if k == 'bootstrap':
+                            B.estimate(run_bootstrap=True)
+                        elif op.get('recycle'):
+                            B.estimate(recycle=True)
+                        else:
+                            B.estimate()
+                    elif k == 'randinit':
+                        np.random.seed(op['seed'])
+                        B.set_random_init_values(default_bound=0.9)
                     elif k == 'quick_estimate':
                         B.quick_estimate()
                     else:
@@ -360,40 +474,44 @@ def run_session(names, name0, ops, rows=4):
                 finally:
                     if ev is not None:
                         ev['first'] = cur['first']
+                    cur['boot'] = False
         finally:
             bio.BIOGEME.calculate_likelihood_and_derivatives = orig
             bio.BIOGEME.calculate_likelihood = orig_l
         # reference values of the log likelihood on the data (no derivatives, nothing is saved), for the sanity
-        # check of the recorded values
+        # check of the recorded values and for the report
         ref = []
         for ev in events:
             if ev['k'] == 'eval':
                 try:
-                    ref.append(float(B.calculate_likelihood(np.array(ev['x'], dtype=float), scaled=False)))
+                    ref.append(float(Bs[0].calculate_likelihood(np.array(ev['x'], dtype=float), scaled=False)))
                 except Exception:  # noqa: BLE001
                     ref.append(None)
         others = sorted(p for p in os.listdir('.') if p != 'biogeme.toml' and not (p.startswith('__') and p.endswith('.iter')))
-    return {'sorted_names': sorted_names, 'start_name': start_name, 'events': events, 'errors': errors, 'ref': ref, 'others': others}
+    return {'sorted_names': sorted_names, 'start_names': start_names, 'events': events, 'errors': errors, 'ref': ref, 'others': others}
 
 
 def oracle_session(sorted_names, events):
     """property oracle on a session, written from the statement (independent of the Lean model).  After EVERY derivative
-    evaluation of the object, whatever the entry point and the flags of the call:
-      (a) every iteration file is complete and holds bit-for-bit a point evaluated with finite derivatives while the
-          model had the name of that file;
-      (b1) a point strictly better (log likelihood on the data) than every finite point evaluated since the start of
-          the estimation is in the file of the CURRENT model name;
-      (b2) a file is only ever replaced by a point at least as good as every finite point evaluated so far, and only
-          the file of the current model name is touched;
+    evaluation of an object of the directory, whatever the entry point and the flags of the call:
+      (a) every iteration file is complete and holds bit-for-bit a point evaluated ON THE ESTIMATION DATA with finite
+          derivatives while the evaluating object had the model name of that file (a point evaluated on a bootstrap
+          resample is not such a point);
+      (b1) a point strictly better (log likelihood on the data) than every finite point evaluated by the object since the
+          start of its estimation is in the file of the CURRENT model name of the object;
+      (b2) a file is only ever replaced by a point at least as good as every finite point evaluated by the acting object
+          since the start of its estimation, and only the file of its current model name is touched;
       (c) estimate() starts from the values of the file of the current model name.
     Returns None or (what, index of the event, observed, expected)."""
     bits = lambda xs: [f2b(v) for v in xs]  # noqa: E731
-    seg = []            # f of the finite points evaluated since the start of the estimation
-    by_name = {}        # model name -> {bits of a finite point evaluated under that name: its best f}
+    segs = {}           # object -> f of the finite points it evaluated on the data since the start of its estimation
+    by_name = {}        # model name -> {bits of a finite point evaluated on the data under that name: its best f}
     prev = {}
     for idx, ev in enumerate(events):
+        oi = ev.get('obj', 0)
+        seg = segs.setdefault(oi, [])
         if ev['k'] == 'reset':
-            seg = []
+            segs[oi] = []
             fb = ev.get('file_before')
             if fb is not None and ev.get('first') is not None:
                 vals, why = parse_iter(sorted_names, fb)
@@ -407,7 +525,8 @@ def oracle_session(sorted_names, events):
                 return (f'assigning modelName = {ev["name"]!r} changed the iteration files', idx, files, prev)
             continue
         name, xb, f = ev['name'], tuple(bits(ev['x'])), ev['f']
-        finite = ev['finite']
+        boot = bool(ev.get('boot'))
+        finite = ev['finite'] and not boot          # an evaluation on the estimation data with finite derivatives
         if finite and math.isnan(f):
             return None          # assumption of the property check (no NaN likelihood at a finite gradient) not met
         prior = max(seg) if seg else None
@@ -423,8 +542,9 @@ def oracle_session(sorted_names, events):
             content[m] = vb
             if vb not in by_name.get(m, {}):
                 elsewhere = sorted(o for o, dd in by_name.items() if vb in dd)
-                return (f'iteration file of model {m!r} holds a point that was not evaluated with finite derivatives under '
-                        f'that model name' + (f' (it was evaluated under {elsewhere})' if elsewhere else ''), idx, text,
+                return (f'iteration file of model {m!r} holds a point that was not evaluated on the estimation data with finite '
+                        f'derivatives under that model name' + (f' (it was evaluated under {elsewhere})' if elsewhere else '')
+                        + (' (the evaluation was made on a bootstrap resample)' if boot else ''), idx, text,
                         'an evaluated point of that model')
         for m in sorted(set(files) | set(prev)):
             if files.get(m) == prev.get(m):
@@ -434,6 +554,8 @@ def oracle_session(sorted_names, events):
             if m != name:
                 return (f'an evaluation under the model name {name!r} rewrote the iteration file of model {m!r}', idx,
                         files[m], prev.get(m))
+            if boot:
+                return (f'an evaluation on a bootstrap resample rewrote the iteration file of model {m!r}', idx, files[m], prev.get(m))
             fc = by_name[m][content[m]]
             if prior is not None and fc < prior:
                 return (f'iteration file of model {m!r} replaced by a point with log likelihood {fc}, worse than the best '
@@ -451,23 +573,32 @@ def oracle_session(sorted_names, events):
     return None
 
 
-def session_case(names, name0, ops):
-    return {'session': True, 'names': names, 'name0': name0, 'ops': ops}
+def session_case(names, name0, ops, algo=None):
+    c = {'session': True, 'names': names, 'name0': name0, 'ops': ops}
+    if algo:
+        c['algo'] = algo
+    return c
 
 
 def session_view(events, upto):
     """compact description of the recorded evaluations for a report"""
     return [
-        {q: ev[q] for q in ('k', 'op', 'name', 'x', 'scaled', 'hessian', 'f', 'finite') if q in ev}
+        {q: ev[q] for q in ('k', 'op', 'obj', 'name', 'x', 'scaled', 'hessian', 'f', 'finite', 'boot') if q in ev}
         for ev in events[: upto + 1]
     ][-12:]
+
+
+def where_of(events, idx):
+    """the marker of the unrepaired code is polluted from the first evaluation on a bootstrap resample on (finding
+    FC15-boot): what is observed at or after it in the same session is attributed to that finding"""
+    return WHERE_BOOT if any(ev.get('boot') for ev in events[: idx + 1]) else WHERE_SESSION
 
 
 def apply_session_oracle(res, case, out):
     """sanity of the recorded values, then the property oracle; True when a violation was reported"""
     evals = [ev for ev in out['events'] if ev['k'] == 'eval']
     for ev, rf in zip(evals, out['ref']):
-        if rf is None or math.isnan(rf) or math.isnan(ev['f']):
+        if rf is None or math.isnan(rf) or math.isnan(ev['f']) or ev.get('boot'):
             continue
         if not (ev['f'] == rf or core.close(ev['f'], rf, 1e-9, 1e-12)):
             res.diverge('value returned by an evaluation (times N when scaled) is not the log likelihood on the data; '
@@ -477,29 +608,49 @@ def apply_session_oracle(res, case, out):
     if bad:
         what, idx, observed, expected = bad
         res.violate(what, {**case, 'event': idx, 'recorded': session_view(out['events'], idx)}, observed, expected,
-                    where='iteration file over a session on one object (entry points, scaled flags, modelName)')
+                    where=where_of(out['events'], idx))
         return True
     return False
 
 
-def check_session(ctx, res, names, name0, ops):
-    out = run_session(names, name0, ops)
-    case = session_case(names, name0, ops)
+def check_session(ctx, res, names, name0, ops, algo=None):
+    out = run_session(names, name0, ops, algo=algo)
+    case = session_case(names, name0, ops, algo)
+    if any(o['k'] in ('estimate', 'quick_estimate', 'bootstrap') for o in ops):
+        res.tally(f'session algorithm {algo or "automatic"}')
     events = out['events']
     evals = [ev for ev in events if ev['k'] == 'eval']
     mixed = len({ev['scaled'] for ev in evals if ev['finite']}) > 1
-    renamed_after_use = any(e1['k'] == 'eval' and e2['k'] == 'rename' and e2['name'] != e1['name']
+    renamed_after_use = any(e1['k'] == 'eval' and e2['k'] == 'rename' and e2['name'] != e1['name'] and e2.get('obj', 0) == e1.get('obj', 0)
                             for i, e1 in enumerate(events) for e2 in events[i + 1:])
-    res.count(case, nontrivial=len(evals) >= 2 and (mixed or renamed_after_use))
+    shared = len({(ev.get('obj', 0)) for ev in evals}) > 1 and any(
+        e1['name'] == e2['name'] and e1.get('obj', 0) != e2.get('obj', 0) for e1 in evals for e2 in evals)
+    resets = [ev for ev in events if ev['k'] == 'reset']
+    res.count(case, nontrivial=len(evals) >= 2 and (mixed or renamed_after_use or shared))
     res.tally('session')
+    res.tally(f'session objects={len(norm_objs(name0))}')
     for ev in evals:
         res.tally('session eval scaled' if ev['scaled'] else 'session eval unscaled')
+        if ev.get('boot'):
+            res.tally('session eval on a bootstrap resample')
     for o in ops:
         res.tally('session op ' + o['k'])
     if mixed:
         res.tally('session with scaled and unscaled finite evaluations')
     if renamed_after_use:
         res.tally('session renamed after first use')
+    if shared:
+        res.tally('session with two objects evaluating under one model name')
+    if len(resets) >= 2:
+        res.tally('session with several estimations')
+        if any(r1.get('obj', 0) == r2.get('obj', 0) and r1['name'] != r2['name'] for r1 in resets for r2 in resets):
+            res.tally('session estimate, rename, estimate on one object')
+    for r in resets:
+        if r.get('file_before') is not None:
+            res.tally('session estimate starting from a file')
+            vals, why = parse_iter(out['sorted_names'], r['file_before'])
+            if why is None and any(v == 0.0 for v in vals):
+                res.tally('session estimate starting from a file with a value exactly 0')
     for e in out['errors']:
         # an operation that raised (e.g. a list argument at a point with non-finite gradient: the warning text needs an
         # array) saved nothing; the files observed by the later operations are still checked
@@ -512,11 +663,12 @@ def check_session(ctx, res, names, name0, ops):
     ops_m = []
     for ev in events:
         if ev['k'] == 'eval':
-            ops_m.append({'k': 'eval', 'x': [str(np.float64(v)) for v in ev['x']], 'f': f2b(ev['f']), 'finite': ev['finite'], 'scaled': ev['scaled']})
+            ops_m.append({'k': 'boot' if ev.get('boot') else 'eval', 'obj': ev.get('obj', 0), 'x': [str(np.float64(v)) for v in ev['x']],
+                          'f': f2b(ev['f']), 'finite': ev['finite'], 'scaled': ev['scaled']})
         elif ev['k'] == 'rename':
-            ops_m.append({'k': 'rename', 'name': ev['name']})
+            ops_m.append({'k': 'rename', 'obj': ev.get('obj', 0), 'name': ev['name']})
         else:
-            ops_m.append({'k': 'reset'})
+            ops_m.append({'k': 'reset', 'obj': ev.get('obj', 0)})
     if not ops_m:
         return out
     observed = [[[m, tokens_of_file(t, sn)] for m, t in sorted(ev['files'].items())] for ev in events]
@@ -524,16 +676,23 @@ def check_session(ctx, res, names, name0, ops):
     def cb(ans):
         model = ans[0].get('files')
         if model is None or len(model) != len(observed):
-            res.diverge('IterFile.strace on a session', case, ans[0], len(observed))
+            res.diverge('IterFile.wtrace on a session', case, ans[0], len(observed))
             return
         for i, (mo, ob) in enumerate(zip(model, observed)):
             if mo != ob:
                 res.diverge(f'iteration files after recorded event {i} of a session ({events[i]["k"]})',
-                            {**case, 'recorded': session_view(events, i)}, mo, ob)
+                            {**case, 'recorded': session_view(events, i)}, mo, ob, where=where_of(events, i))
                 break
 
-    ctx.batch.add_many([{'op': 'session', 'name': out['start_name'], 'ops': ops_m}], cb)
+    ctx.batch.add_many([{'op': 'world', 'objs': out['start_names'], 'ops': ops_m}], cb)
     return out
+
+
+def _bootstrap_case(case):
+    return isinstance(case, dict) and any(o.get('k') == 'bootstrap' for o in case.get('ops', []) if isinstance(o, dict))
+
+
+MATCHERS = {'bootstrap_session': _bootstrap_case}
 
 
 SESSION_CORPUS = [
@@ -566,143 +725,554 @@ SESSION_CORPUS = [
         {'k': 'eval', 'x': [0.25], 'scaled': False, 'hessian': False, 'bhhh': False},
         {'k': 'eval', 'x': [-0.85], 'scaled': False, 'hessian': False, 'bhhh': False},
         {'k': 'quick_estimate'}]},
+    # estimate, rename, estimate on one object; the second estimation must start from the file of the new name
+    {'names': ['b10', 'b2'], 'name0': ['pilot', 'final'], 'ops': [
+        {'k': 'eval', 'x': [0.0, -0.5], 'scaled': False, 'hessian': False, 'bhhh': False, 'obj': 1},
+        {'k': 'estimate', 'obj': 0},
+        {'k': 'rename', 'name': 'final', 'obj': 0},
+        {'k': 'estimate', 'obj': 0},
+        {'k': 'eval', 'x': [0.5, 0.5], 'scaled': True, 'hessian': False, 'bhhh': False, 'obj': 0}]},
+    # two objects sharing a model name: each has its own marker; a saved value exactly 0.0 / -0.0 is the start of the
+    # estimation of the other object
+    {'names': ['zeta', 'alpha'], 'name0': ['m', 'm'], 'ops': [
+        {'k': 'eval', 'x': [0.0, -0.0], 'scaled': False, 'hessian': False, 'bhhh': False, 'obj': 0},
+        {'k': 'estimate', 'obj': 1},
+        {'k': 'eval', 'x': [0.5, 0.5], 'scaled': False, 'hessian': False, 'bhhh': False, 'obj': 0},
+        {'k': 'eval', 'x': [0.4, 0.4], 'scaled': True, 'hessian': False, 'bhhh': False, 'obj': 1},
+        {'k': 'quick_estimate', 'obj': 0}]},
+    # bootstrapping: the resamples must not reach the iteration file (finding FC15-boot)
+    {'names': ['b', 'a'], 'name0': ['boot'], 'ops': [
+        {'k': 'bootstrap', 'obj': 0},
+        {'k': 'eval', 'x': [0.4, -0.5], 'scaled': False, 'hessian': False, 'bhhh': False, 'obj': 0}]},
 ]
 
 
 # ----- crash injection -------------------------------------------------------------------------
+#
+# One fresh interpreter per experiment (`core.run_isolated`): it builds the objects, then FORKS one child per
+# crash point.  The child installs recorders around the primitives of the real code (the file object returned by
+# `open` for an iteration file: write / writelines / flush / close; `os.replace` / `os.rename` / `os.remove`), runs
+# the real evaluation and is stopped with `os._exit` right after its k-th primitive: what Python still holds in the
+# buffer of an open file is lost, exactly as for a killed process.  The parent then looks at the directory and a
+# second forked child performs the real restart (`_load_saved_iteration`, then a full `estimate()`).
 
-CHILD = r'''
-import sys, os, json, builtins
-sys.path.insert(0, {harness!r})
-import warnings; warnings.simplefilter('ignore')
-import numpy as np
-from props import c15
-spec = json.loads(sys.argv[1])
-os.chdir(spec['dir'])
-B = c15.build(spec['names'], spec['tag'])
-import biogeme.biogeme as bb
-trace = []
-limit = spec['k']
-def tick():
-    if limit is not None and len(trace) >= limit:
-        sys.stdout.write('@@TRACE@@' + json.dumps(trace)); sys.stdout.flush()
-        os._exit(0)
-real_open = builtins.open
-class Proxy:
-    def __init__(self, path, f):
-        self.path, self.f = path, f
-    def write(self, s):
-        self.f.write(s); self.f.flush(); os.fsync(self.f.fileno())
-        trace.append(['write', self.path, s]); tick()
-        return len(s)
-    def __enter__(self): return self
-    def __exit__(self, *a):
-        self.f.close(); trace.append(['close', self.path]); tick(); return False
-    def close(self):
-        self.f.close(); trace.append(['close', self.path]); tick()
-    def flush(self): self.f.flush()
-def my_open(path, mode='r', *a, **k):
-    if isinstance(path, str) and '.iter' in path and 'w' in mode:
-        f = real_open(path, mode, *a, **k)
-        trace.append(['open', path]); tick()
-        return Proxy(path, f)
-    return real_open(path, mode, *a, **k)
-bb.open = my_open
-real_replace = os.replace
-def my_replace(s, t, *a, **k):
-    real_replace(s, t, *a, **k)
-    trace.append(['replace', s, t]); tick()
-os.replace = my_replace
-real_rename = os.rename
-def my_rename(s, t, *a, **k):
-    real_rename(s, t, *a, **k)
-    trace.append(['replace', s, t]); tick()
-os.rename = my_rename
-tick()
-B.calculate_likelihood_and_derivatives(np.array(spec['x'], dtype=float), scaled=False, hessian=False, bhhh=False)
-sys.stdout.write('@@TRACE@@' + json.dumps(trace)); sys.stdout.flush()
-'''
+WHERE_CRASH = 'calculate_likelihood_and_derivatives: write of the iteration file'
+KNOWN_PRIMS = {'open': 2, 'write': 3, 'flush': 2, 'close': 2, 'replace': 3, 'remove': 2}
 
 
-def crash_child(d, names, tag, x, k):
-    code = CHILD.format(harness=str(core.VERIF / 'harness'))
-    spec = json.dumps({'dir': str(d), 'names': names, 'tag': tag, 'x': x, 'k': k})
-    env = dict(os.environ)
-    env['PYTHONWARNINGS'] = 'ignore'
-    p = subprocess.run([core.PY, '-c', code, spec], capture_output=True, text=True, timeout=300, env=env)
-    if '@@TRACE@@' not in p.stdout:
-        raise RuntimeError('crash child failed: ' + p.stderr[-1500:])
-    return json.loads(p.stdout.split('@@TRACE@@', 1)[1])
+def _install_recorders(trace, limit, on_stop):
+    """wrap the primitives; `limit` None: record only.  Returns nothing; acts on builtins / io / os of this
+    (forked) process"""
+    import builtins
+    import io
+
+    def tick():
+        if limit is not None and len(trace) >= limit:
+            on_stop()
+
+    def rel(pth):
+        try:
+            pth = os.fspath(pth)
+        except TypeError:
+            return None
+        if isinstance(pth, bytes):
+            pth = pth.decode('utf-8', 'replace')
+        if not isinstance(pth, str):
+            return None
+        ap = os.path.abspath(pth)
+        cwd = os.getcwd()
+        return os.path.relpath(ap, cwd) if ap.startswith(cwd + os.sep) else ap
+
+    def text(x):
+        return x if isinstance(x, str) else bytes(x).decode('utf-8', 'replace')
+
+    class Proxy:
+        """the real file object (real buffering), every call recorded"""
+
+        def __init__(self, path, f):
+            object.__setattr__(self, '_p', path)
+            object.__setattr__(self, '_f', f)
+
+        def write(self, x):
+            n = self._f.write(x)
+            trace.append(['write', self._p, text(x)])
+            tick()
+            return n
+
+        def writelines(self, lines):
+            for x in lines:          # as io.TextIOWrapper.writelines does
+                self.write(x)
+
+        def flush(self):
+            self._f.flush()
+            trace.append(['flush', self._p])
+            tick()
+
+        def close(self):
+            if not self._f.closed:
+                self._f.close()
+                trace.append(['close', self._p])
+                tick()
+
+        def __enter__(self):
+            return self
+
+        def __exit__(self, *a):
+            self.close()
+            return False
+
+        def __getattr__(self, name):
+            return getattr(self._f, name)
+
+        def __setattr__(self, name, value):
+            setattr(self._f, name, value)
+
+        def __iter__(self):
+            return iter(self._f)
+
+    def wrap_open(real):
+        def my_open(file, mode='r', *a, **k):
+            name = rel(file) if not isinstance(file, int) else None
+            if name is not None and '.iter' in os.path.basename(name) and any(c in mode for c in 'wax+'):
+                f = real(file, mode, *a, **k)
+                if 'w' in mode:
+                    trace.append(['open', name])
+                else:
+                    trace.append(['open_' + mode, name])          # not modelled
+                tick()
+                return Proxy(name, f)
+            return real(file, mode, *a, **k)
+        return my_open
+
+    new_open = wrap_open(builtins.open)
+    builtins.open = new_open
+    io.open = new_open
+
+    def wrap2(real, tag):
+        def f(src, dst, *a, **k):
+            r = real(src, dst, *a, **k)
+            ns, nd = rel(src), rel(dst)
+            if '.iter' in str(ns) or '.iter' in str(nd):
+                trace.append([tag, ns, nd])
+                tick()
+            return r
+        return f
+
+    def wrap1(real, tag):
+        def f(pth, *a, **k):
+            r = real(pth, *a, **k)
+            n = rel(pth)
+            if '.iter' in str(n):
+                trace.append([tag, n])
+                tick()
+            return r
+        return f
+
+    os.replace = wrap2(os.replace, 'replace')
+    os.rename = wrap2(os.rename, 'replace')
+    os.remove = wrap1(os.remove, 'remove')
+    os.unlink = wrap1(os.unlink, 'remove')
+    os.truncate = wrap1(os.truncate, 'truncate')                   # not modelled
+    for nm in ('link', 'symlink'):
+        if hasattr(os, nm):
+            setattr(os, nm, wrap2(getattr(os, nm), nm))            # not modelled
+
+
+def _dir_state(d):
+    out = {}
+    for q in sorted(os.listdir(d)):
+        if q == 'biogeme.toml' or not os.path.isfile(os.path.join(d, q)):
+            continue
+        try:
+            out[q] = Path(d, q).read_text(encoding='utf-8')
+        except Exception:  # noqa: BLE001
+            out[q] = '<unreadable>'
+    return out
+
+
+def _set_dir_state(d, state):
+    for q in os.listdir(d):
+        if q != 'biogeme.toml':
+            try:
+                os.unlink(os.path.join(d, q))
+            except OSError:
+                pass
+    for q, t in state.items():
+        Path(d, q).write_text(t, encoding='utf-8')
+
+
+def _forked(fn, result_path=None, timeout=120):
+    """run fn() in a forked child; the child ends with os._exit (nothing is flushed).  Returns (exit status,
+    JSON written by the child to result_path or None)"""
+    import signal
+    import time
+    sys.stdout.flush()
+    sys.stderr.flush()
+    pid = os.fork()
+    if pid == 0:
+        code = 0
+        try:
+            r = fn()
+            if result_path is not None:
+                fd = os.open(result_path, os.O_WRONLY | os.O_CREAT | os.O_TRUNC)
+                os.write(fd, json.dumps(r).encode())
+                os.close(fd)
+        except BaseException as e:  # noqa: BLE001
+            code = 7
+            try:
+                if result_path is not None:
+                    fd = os.open(result_path, os.O_WRONLY | os.O_CREAT | os.O_TRUNC)
+                    os.write(fd, json.dumps({'__error__': f'{type(e).__name__}: {e}'}).encode())
+                    os.close(fd)
+            except BaseException:  # noqa: BLE001
+                pass
+        os._exit(code)
+    t0 = time.time()
+    while True:
+        done, status = os.waitpid(pid, os.WNOHANG)
+        if done:
+            break
+        if time.time() - t0 > timeout:
+            os.kill(pid, signal.SIGKILL)
+            os.waitpid(pid, 0)
+            status = -1
+            break
+        time.sleep(0.002)
+    res = None
+    if result_path is not None and os.path.exists(result_path):
+        try:
+            res = json.loads(Path(result_path).read_text())
+        except Exception:  # noqa: BLE001
+            res = None
+        os.unlink(result_path)
+    return status, res
+
+
+def _line_tracer(limit, counter, on_stop):
+    """stop before the `limit`-th line executed inside calculate_likelihood_and_derivatives (and the generator /
+    comprehension frames defined in it): crash points that do not depend on the recorded primitives"""
+    import biogeme.biogeme as bb
+    target_file = bb.__file__
+    first = bb.BIOGEME.calculate_likelihood_and_derivatives.__code__.co_firstlineno
+    import inspect
+    last = first + len(inspect.getsourcelines(bb.BIOGEME.calculate_likelihood_and_derivatives)[0])
+
+    def local(frame, event, arg):
+        if event == 'line':
+            counter[0] += 1
+            if limit is not None and counter[0] >= limit:
+                on_stop()
+        return local
+
+    def glob(frame, event, arg):
+        co = frame.f_code
+        if co.co_filename == target_file and first <= co.co_firstlineno <= last:
+            return local
+        return None
+
+    return glob
+
+
+def crash_worker(payload):
+    """runs in a fresh interpreter (core.run_isolated).  payload: names, tag, x_old (or None), x_new, toml,
+    ks (None = every crash point), lines (bool: crash points by executed line instead of by primitive),
+    estimate (bool: the restart also runs a full estimate()).  Nothing here raises for a misbehaving save: every
+    failure is reported in the result."""
+    import tempfile
+    import shutil
+    import warnings
+    warnings.simplefilter('ignore')
+    names, tag = payload['names'], payload['tag']
+    d = tempfile.mkdtemp(prefix='vbg_crash_')
+    side = tempfile.mkdtemp(prefix='vbg_side_')
+    old_cwd = os.getcwd()
+    out = {'errors': []}
+    try:
+        Path(d, 'biogeme.toml').write_text(payload.get('toml', TOML))
+        os.chdir(d)
+        B = build(names, tag)
+        out['sorted_names'] = list(B.free_beta_names)
+        out['defaults'] = [float(v) for v in B.id_manager.free_betas_values]
+        fname = f'__{tag}.iter'
+        out['fname'] = fname
+
+        points_log = os.path.join(side, 'points')
+
+        def evaluate(x, whole_estimation=False):
+            if not whole_estimation:
+                B.calculate_likelihood_and_derivatives(np.array(x, dtype=float), scaled=False, hessian=False, bhhh=False)
+                return
+            # a whole estimate() (started from x): every point handed to the likelihood is logged, unbuffered, before it
+            # is evaluated, so that the parent knows the evaluated points even when the child is stopped
+            import biogeme.biogeme as bio
+            orig = bio.BIOGEME.calculate_likelihood_and_derivatives
+            fd = os.open(points_log, os.O_WRONLY | os.O_CREAT | os.O_APPEND)
+
+            def spy(self, xx, *a, **k):
+                os.write(fd, (json.dumps([float(v) for v in xx]) + '\n').encode())
+                return orig(self, xx, *a, **k)
+
+            bio.BIOGEME.calculate_likelihood_and_derivatives = spy
+            B.generate_html = False
+            B.generate_pickle = False
+            B.change_init_values(dict(zip(B.free_beta_names, map(float, x))))
+            B.estimate()
+
+        if payload.get('x_old') is not None:
+            st, r = _forked(lambda: evaluate(payload['x_old']), os.path.join(side, 'r'))
+            if st != 0:
+                out['errors'].append(f'first save failed: {r}')
+        old = _dir_state(d)
+        out['old'] = old
+
+        by_lines = bool(payload.get('lines'))
+
+        def run_with(limit):
+            trace, counter = [], [0]
+
+            def stop():
+                os._exit(0)
+
+            if by_lines:
+                sys.settrace(_line_tracer(limit, counter, stop))
+            else:
+                _install_recorders(trace, limit, stop)
+                if limit == 0:
+                    stop()
+            try:
+                evaluate(payload['x_new'], whole_estimation=payload.get('mode') == 'estimate')
+            finally:
+                if by_lines:
+                    sys.settrace(None)
+            return {'trace': trace, 'lines': counter[0]}
+
+        st, full = _forked(lambda: run_with(None), os.path.join(side, 'r'))
+        if st != 0 or full is None or '__error__' in (full or {}):
+            out['errors'].append(f'the complete save failed under the recorders: status {st}, {full}')
+            out['trace'], n_points = [], 0
+        else:
+            out['trace'] = full['trace']
+            n_points = full['lines'] if by_lines else len(full['trace'])
+        out['new'] = _dir_state(d)
+        out['n_points'] = n_points
+
+        def restart():
+            import biogeme.biogeme as bio
+            B2 = build(names, tag)
+            r = {'before': [float(v) for v in B2.id_manager.free_betas_values]}
+            try:
+                B2._load_saved_iteration()
+                r['load_ok'] = True
+                r['values'] = [float(v) for v in B2.id_manager.free_betas_values]
+            except Exception as e:  # noqa: BLE001
+                r['load_ok'] = False
+                r['load_error'] = f'{type(e).__name__}: {e}'
+                return r
+            if payload.get('estimate', True):
+                B3 = build(names, tag)
+                B3.generate_html = False
+                B3.generate_pickle = False
+                seen = []
+                orig = bio.BIOGEME.calculate_likelihood_and_derivatives
+                orig_l = bio.BIOGEME.calculate_likelihood
+
+                def spy(self, x, *a, **k):
+                    seen.append([float(v) for v in x])
+                    return orig(self, x, *a, **k)
+
+                def spy_l(self, x, *a, **k):
+                    seen.append([float(v) for v in x])
+                    return orig_l(self, x, *a, **k)
+
+                bio.BIOGEME.calculate_likelihood_and_derivatives = spy
+                bio.BIOGEME.calculate_likelihood = spy_l
+                try:
+                    B3.estimate()
+                    r['estimate_ok'] = True
+                except Exception as e:  # noqa: BLE001
+                    r['estimate_ok'] = False
+                    r['estimate_error'] = f'{type(e).__name__}: {e}'
+                r['first'] = seen[0] if seen else None
+            return r
+
+        ks = payload.get('ks')
+        if ks is None:
+            ks = list(range(n_points + 1))
+        elif isinstance(ks, dict):
+            # a sample of the crash points of a long run: the first and last ones and `n` others
+            import random
+            r_ = random.Random(ks.get('seed', 0))
+            inner = list(range(1, max(1, n_points - 1)))
+            ks = sorted(set([0, n_points] + r_.sample(inner, min(len(inner), ks.get('n', 8)))))
+        points = []
+        for k in ks:
+            _set_dir_state(d, old)
+            if os.path.exists(points_log):
+                os.unlink(points_log)
+            st, _ = _forked(lambda k=k: run_with(k), None)
+            state = _dir_state(d)
+            evaluated = None
+            if os.path.exists(points_log):
+                evaluated = [json.loads(l) for l in Path(points_log).read_text().split('\n') if l]
+            st2, rs = _forked(restart, os.path.join(side, 'r'))
+            points.append({'k': k, 'status': st, 'state': state, 'restart': rs, 'evaluated': evaluated})
+        out['points'] = points
+    except Exception as e:  # noqa: BLE001
+        import traceback
+        out['errors'].append('crash worker: ' + traceback.format_exc()[-1200:])
+    finally:
+        os.chdir(old_cwd)
+        shutil.rmtree(d, ignore_errors=True)
+        shutil.rmtree(side, ignore_errors=True)
+    return out
+
+
+def oracle_crash(out, pt, x_old, x_new):
+    """property oracle on the real directory after a stop (written from the statement, independent of the model and of
+    what was recorded): the iteration file either does not exist or is complete and holds bit-for-bit an evaluated
+    point; the restart succeeds and starts from the file.  None or (what, observed, expected)"""
+    sn, fname = out['sorted_names'], out['fname']
+    got = pt['state'].get(fname)
+    bits = lambda xs: [f2b(float(v)) for v in xs]  # noqa: E731
+    evaluated = [x for x in (x_old, x_new) if x is not None] + (pt.get('evaluated') or [])
+    vals = None
+    if got is not None:
+        vals, why = parse_iter(sn, got)
+        if why:
+            return (f'leaves an iteration file that is not complete ({why})', got, 'no file, or one complete line per free parameter')
+        if not any(bits(vals) == bits(x) for x in evaluated):
+            return ('leaves an iteration file holding a point that was never evaluated', got, evaluated)
+    rs = pt.get('restart')
+    if not rs or '__error__' in rs:
+        return (f'the restart could not be run: {rs}', rs, 'restart succeeds')
+    if not rs.get('load_ok'):
+        return (f'the restart fails: {rs.get("load_error")}', got, 'restart succeeds')
+    expected = vals if vals is not None else rs['before']
+    if bits(rs['values']) != bits(expected):
+        return ('the restart does not start from the values of the file', rs['values'], expected)
+    if 'estimate_ok' in rs:
+        if not rs['estimate_ok']:
+            return (f'estimate() fails on restart: {rs.get("estimate_error")}', got, 'restart succeeds')
+        if rs.get('first') is not None and bits(rs['first']) != bits(expected):
+            return ('estimate() does not start from the values of the file', rs['first'], expected)
+    return None
+
+
+def crash_payload(names, tag, x_old, x_new, **kw):
+    return {'names': names, 'tag': tag, 'x_old': x_old, 'x_new': x_new, 'toml': TOML, **kw}
+
+
+def crash_case(names, x_old, x_new, k, lines=False, mode=None):
+    c = {'names': names, 'x_old': x_old, 'x_new': x_new, 'crash_after': k, 'crash_unit': 'executed line' if lines else 'primitive'}
+    if mode:
+        c['mode'] = mode
+    return c
+
+
+def apply_crash_oracle(res, out, names, x_old, x_new, lines=False, mode=None):
+    """oracle at every crash point of a worker result; reports the first violation with its crash point"""
+    unit = 'executed line of calculate_likelihood_and_derivatives' if lines else 'primitive file operation'
+    for pt in out.get('points', []):
+        bad = oracle_crash(out, pt, x_old, x_new)
+        if bad:
+            what, observed, expected = bad
+            tr = out.get('trace') or []
+            at = ''
+            if not lines and 0 < pt['k'] <= len(tr):
+                at = f' ({" ".join(map(str, tr[pt["k"] - 1][:2]))})'
+            res.violate(f'a process stopped after {unit} {pt["k"]}{at} of {"an estimation" if mode else "a save"} {what}',
+                        {**crash_case(names, x_old, x_new, pt['k'], lines, mode), 'trace': tr[-40:], 'directory': pt['state']},
+                        observed, expected, where=WHERE_CRASH)
+            return True
+    return False
+
+
+def run_crash_worker(payload):
+    out = core.run_isolated('props.c15', 'crash_worker', payload, timeout=900)
+    if not isinstance(out, dict) or '__error__' in out or 'points' not in out:
+        return {'errors': [f'crash worker did not return: {str(out)[:800]}'], 'points': [], 'trace': []}
+    return out
 
 
 def crash_experiment(ctx, res, names, tag, x_old, x_new):
-    """one save over an existing file; full trace to the model, then every crash point for real"""
-    with core.scratch(TOML) as d:
-        fname = f'__{tag}.iter'
-        # a first complete save (no crash) creates the old file, unless x_old is None
-        if x_old is not None:
-            crash_child(d, names, tag, x_old, None)
-        old = read_file(d / fname)
-        saved_old = old
-        full = crash_child(d, names, tag, x_new, None)
-        new = read_file(d / fname)
-        case = {'names': names, 'x_old': x_old, 'x_new': x_new}
-        # (ii) every crash point for real (before asking the model: one driver batch at the end)
-        observed = []
-        for k in range(len(full) + 1):
-            for p in os.listdir(d):
-                if p != 'biogeme.toml':
-                    os.unlink(d / p)
-            if saved_old is not None:
-                Path(d / fname).write_text(saved_old, encoding='utf-8')
-            crash_child(d, names, tag, x_new, k)
-            got = read_file(d / fname)
-            observed.append(got)
-            res.tally('crash_points')
-            if got != saved_old and got != new:
-                res.violate(
-                    f'a stop after primitive file operation {k} of a save leaves a partial iteration file',
-                    {**case, 'crash_after': k, 'trace': full},
-                    got,
-                    [saved_old, new],
-                    where='calculate_likelihood_and_derivatives: write of the iteration file',
-                )
-            else:
-                # the restart must succeed from whatever is there
-                cwd = os.getcwd()
-                try:
-                    os.chdir(d)
-                    B2 = build(names, tag)
-                    B2._load_saved_iteration()
-                except Exception as e:  # noqa: BLE001
-                    res.violate(
-                        f'restart fails after a stop at primitive operation {k}: {type(e).__name__}: {e}',
-                        {**case, 'crash_after': k}, got, 'restart succeeds', where='_load_saved_iteration')
-                finally:
-                    os.chdir(cwd)
-        # (i) the recorded protocol is the one of theorem crash_safe, for its own chunks
-        chunks = [op[2] for op in full if op[0] == 'write']
-        tmp = full[0][1] if full and full[0][0] == 'open' else None
-        req = [
-            {'op': 'protocol', 'tmp': tmp or '?', 'file': fname, 'chunks': chunks},
-            {'op': 'crash', 'dir': ([[fname, old]] if old is not None else []), 'ops': full, 'file': fname, 'new': new or ''},
-        ]
-        res.count({'crash_protocol': case, 'trace': full}, nontrivial=x_old is not None)
-        res.traces_validated += 1
+    """one save over an existing file: the real primitives are recorded, every crash point is injected for real
+    (oracle on the real directory + real restart), and the Lean model of the recorded primitives decides which
+    prefixes are unsafe and predicts the directory at every crash point"""
+    case = {'names': names, 'x_old': x_old, 'x_new': x_new}
+    out = run_crash_worker(crash_payload(names, tag, x_old, x_new))
+    full = out.get('trace') or []
+    for e in out.get('errors', []):
+        res.diverge('crash experiment: ' + e, case, 'a save that completes under the recorders', e)
+    res.count({'crash_protocol': case, 'trace': full}, nontrivial=x_old is not None)
+    for pt in out.get('points', []):
+        res.tally('crash_points')
+    found = apply_crash_oracle(res, out, names, x_old, x_new)
+    if not out.get('points'):
+        return found
+    fname = out['fname']
+    new_text = out['new'].get(fname)
+    # the complete save itself
+    why = oracle_file(out['sorted_names'], new_text, ([{'x': x_old, 'f': 0.0, 'finite': True}] if x_old is not None else [])
+                      + [{'x': x_new, 'f': 1.0, 'finite': True}])
+    if why and not found:
+        res.violate(f'iteration file after a complete save: {why}', {**case, 'trace': full}, new_text, x_new, where=WHERE_CRASH)
+    unknown = [op for op in full if KNOWN_PRIMS.get(op[0]) != len(op)]
+    for op in full:
+        res.tally('primitive ' + op[0])
+    if unknown:
+        res.diverge('the save uses a file primitive that the model does not know', case, sorted(KNOWN_PRIMS), unknown[:3])
+        return found
+    res.traces_validated += 1
+    observed = [[[q, t] for q, t in sorted(pt['state'].items())] for pt in out['points']]
+    req = [{'op': 'crashb', 'dir': [[q, t] for q, t in sorted(out['old'].items())], 'ops': full, 'file': fname, 'new': new_text or ''}]
 
-        def cb(ans):
-            shape_ok = ans[0].get('ops') == full and ans[0].get('content') == new and tmp != fname
-            if not shape_ok:
-                res.diverge('write protocol differs from IterFile.protocol (hypothesis of C15.crash_safe)', case, ans[0].get('ops'), full)
-            if not ans[1].get('safe'):
-                res.diverge('recorded protocol is not crash safe in the model', case, ans[1], full)
-            states = ans[1].get('states', [])
-            for k, got in enumerate(observed):
-                ms = states[k] if k < len(states) else '<none>'
-                if got != ms:
-                    res.diverge(f'directory after a stop at primitive operation {k}', case, ms, got)
+    def cb(ans):
+        a = ans[0]
+        res.tally('protocol shape ' + str(a.get('shape')))
+        if a.get('shape') not in ('tmp_close_replace', 'tmp_only_then_replace'):
+            # tmp_close_replace: C15.crash_safe_buffered (all k, all chunk lists); tmp_only_then_replace (explicit flushes,
+            # other chunkings, ...): C15.tmp_then_replace_safe (all k before the rename, all such traces)
+            res.diverge(f'write protocol has the shape {a.get("shape")!r}: neither IterFile.protocolB (hypothesis of C15.crash_safe_buffered) '
+                        'nor the family IterFile.tmpThenReplace (hypothesis of C15.tmp_then_replace_safe)',
+                        case, 'primitives on the temporary file only, then one rename as the last primitive', full)
+        if a.get('content') != new_text:
+            res.diverge('text written by the recorded primitives is not the final iteration file', case, a.get('content'), new_text)
+        disks = a.get('disks', [])
+        for k, got in enumerate(observed):
+            ms = disks[k] if k < len(disks) else '<none>'
+            if got != ms:
+                res.diverge(f'directory after a stop at primitive operation {k}', {**case, 'trace': full}, ms, got)
+                break
+        for k in a.get('unsafe', ['<no answer>']):
+            # the model says this prefix is unsafe: the real run at that crash point was judged by the oracle above
+            res.diverge(f'the model of the recorded primitives is unsafe at crash point {k}', {**case, 'trace': full},
+                        disks[k] if isinstance(k, int) and k < len(disks) else None, observed[k] if isinstance(k, int) and k < len(observed) else None)
 
-        ctx.batch.add_many(req, cb)
+    ctx.batch.add_many(req, cb)
+    return found
+
+
+def crash_search(res, rng, n=2):
+    """a correspondence of the write protocol broke: look for a concrete crash point on the real code, first at every
+    recorded primitive, then at every executed line of the saving function (independent of what was recorded), on
+    small and on large files (larger than one I/O buffer)"""
+    for i in range(n):
+        for k_par in ([2, 1, 3][i % 3], 44):
+            names = [f'beta_{j:03d}_{"x" * 200}' for j in range(k_par)] if k_par > 3 else rng.sample(NAME_POOL, k_par)
+            x_old = [rng.uniform(-1, 0.0) for _ in range(k_par)]
+            x_new = [0.16 * ((j % 5) + 1) for j in range(k_par)]
+            if k_par > 3:
+                x_new[-1] = -0.88
+            for lines in (False, True):
+                kw = {}
+                if k_par > 3:
+                    kw['estimate'] = False
+                out = run_crash_worker(crash_payload(names, f'cs{i}', x_old, x_new, lines=lines, **kw))
+                if k_par > 3 and out.get('n_points', 0) > 60:
+                    pass
+                if apply_crash_oracle(res, out, names, x_old, x_new, lines=lines):
+                    return True
+    return False
 
 
 # ----- the check ----------------------------------------------------------------------------------
@@ -796,14 +1366,20 @@ def check_history(ctx, res, names, pts, tag):
 
 
 def check(ctx) -> Result:
+    import time
     res = Result(rule=RULE, tolerance='exact (bit patterns and strings)')
     rng = ctx.rng
+    t0 = time.time()
+    marks = []
+
+    def mark(what):
+        marks.append(f'{what} {time.time() - t0:.0f}s')
     tagc = 0
     for c in CORPUS:
         tagc += 1
         check_history(ctx, res, c['names'], c['pts'], f'm{tagc}')
         res.tally('corpus')
-    n_hist = ctx.n(40, 1500)
+    n_hist = ctx.n(40, 800)
     for _ in range(n_hist):
         k = rng.randint(1, 3)
         names = rng.sample(NAME_POOL, k)
@@ -814,33 +1390,131 @@ def check(ctx) -> Result:
         res.tally(f'len={len(pts)}')
         if len(res.violations) > 3:
             break
+    mark('histories')
     # sessions on one object: entry points x option combinations x renames
     for c in SESSION_CORPUS:
         check_session(ctx, res, c['names'], c['name0'], c['ops'])
         res.tally('corpus')
-    for _ in range(ctx.n(110, 2000)):
-        if len(res.violations) > 3:
+    for _ in range(ctx.n(110, 900)):
+        if len([v for v in res.violations if v.get('where') != WHERE_BOOT]) > 3:
             break
         k = rng.randint(1, 3)
         names = rng.sample(NAME_POOL, k)
         name0, ops = gen_session(rng, k)
-        check_session(ctx, res, names, name0, ops)
-    # crash points
-    n_crash = ctx.n(2, 12)
+        check_session(ctx, res, names, name0, ops, algo=pick_algo(rng, ops))
+    mark('sessions')
+    # files that were not written by the same model (other parameter sets sharing the model name, edited by hand)
+    for i in range(ctx.n(25, 300)):
+        check_load(ctx, res, rng, f'ld{i}')
+    mark('load')
+    # crash points: every primitive of a save (recorded from the real code, decided by the model, injected for real)
+    n_crash = ctx.n(3, 8)
     for i in range(n_crash):
         k = rng.randint(1, 3)
         names = rng.sample(NAME_POOL, k)
-        x_old = None if i == 0 else [rng.uniform(-1, 0.0) for _ in range(k)]
+        x_old = None if i == 0 else [rng.choice([rng.uniform(-1, 0.0), 0.0]) for _ in range(k)]
         x_new = [0.16 * (j + 1) for j in range(k)]
         tagc += 1
-        crash_experiment(ctx, res, names, f'm{tagc}', x_old, x_new)
+        crash_experiment(ctx, res, names, rng.choice([f'm{tagc}', 'run 1', 'a.iter']), x_old, x_new)
+    # a whole estimate() stopped after a sample of its primitives (several saves, each over the previous one)
+    for i in range(ctx.n(1, 4)):
+        k = rng.randint(1, 2)
+        names = rng.sample(NAME_POOL, k)
+        x_old = [rng.uniform(-1, 0.0) for _ in range(k)]
+        x_new = [rng.choice([0.0, 0.5, -0.5]) for _ in range(k)]
+        case_e = {'names': names, 'x_old': x_old, 'x_new': x_new, 'mode': 'estimate'}
+        out_e = run_crash_worker(crash_payload(names, f'ce{i}', x_old, x_new, mode='estimate', ks={'n': ctx.n(8, 25), 'seed': rng.randrange(10 ** 6)}))
+        for e in out_e.get('errors', []):
+            res.diverge('crash experiment (whole estimation): ' + e, case_e, 'an estimation that completes under the recorders', e)
+        res.count({'crash_estimate': case_e, 'n': out_e.get('n_points')}, nontrivial=True)
+        for _ in out_e.get('points', []):
+            res.tally('crash_points inside a whole estimate()')
+        apply_crash_oracle(res, out_e, names, x_old, x_new, mode='estimate')
+    mark('crash primitives')
+    # crash points by executed line of the saving function (independent of the recorded primitives), small and (thorough)
+    # larger than one I/O buffer
+    for i in range(ctx.n(1, 3)):
+        k = rng.randint(1, 2) if i != 1 else 44
+        names = rng.sample(NAME_POOL, k) if k <= 3 else [f'beta_{j:03d}_{"x" * 200}' for j in range(k)]
+        x_old = [rng.uniform(-1, 0.0) for _ in range(k)]
+        x_new = [0.16 * ((j % 5) + 1) for j in range(k)]
+        x_new[-1] = -0.88 if k > 3 else x_new[-1]
+        out_l = run_crash_worker(crash_payload(names, f'l{i}', x_old, x_new, lines=True, estimate=(k <= 3)))
+        for e in out_l.get('errors', []):
+            res.diverge('crash experiment (by line): ' + e, {'names': names, 'x_old': x_old, 'x_new': x_new}, 'a save that completes', e)
+        res.count({'crash_lines': {'names': names, 'x_old': x_old, 'x_new': x_new}, 'n': out_l.get('n_points')}, nontrivial=True)
+        for _ in out_l.get('points', []):
+            res.tally('crash_points by executed line')
+        apply_crash_oracle(res, out_l, names, x_old, x_new, lines=True)
+    mark('crash lines')
     # a real estimate() starts from the file (spy on the first evaluated point)
     for i in range(ctx.n(3, 10)):
         k = rng.randint(1, 3)
         names = rng.sample(NAME_POOL, k)
         estimate_restart(ctx, res, names, [rng.choice([0.0, 0.0, rng.randint(-6, 6) / 8.0]) for _ in range(k)], f'e{i}')
+    mark('estimate restart')
     ctx.batch.flush()
+    mark('model')
+    if os.environ.get('C15_TIMES'):
+        print('C15 wall time after each part: ' + ', '.join(marks), file=sys.stderr)
     return res
+
+
+VALUE_TOKENS = ['0.0', '-0.0', '0', '1e-300', '-1.5e-07', '3', '0.1', '2.5', '-0.875', '1e5', '.5', '+0.25', 'inf']
+
+
+def check_load(ctx, res, rng, tag):
+    """`_load_saved_iteration` + `change_init_values` on a file that this model did not write: a subset / superset of the
+    names (an object with another parameter set sharing the model name), any order, repeated names, blanks around name and
+    value, values exactly 0; rarely a line without '='.  Compared with IterFile.parseLine + IterFile.restart; oracle: every
+    free parameter named in the file starts from the LAST value given for it, every other one keeps its value"""
+    k = rng.randint(1, 3)
+    names = rng.sample(NAME_POOL, k)
+    pool = names + names + rng.sample(NAME_POOL, 2)
+    lines = []
+    for _ in range(rng.randint(0, 5)):
+        n, v = rng.choice(pool), rng.choice(VALUE_TOKENS)
+        lines.append(rng.choice(['{n} = {v}', '{n} = {v}', '{n}={v}', '  {n}  =   {v}  ', '{n} =\t{v}']).format(n=n, v=v))
+    malformed = rng.random() < 0.08
+    if malformed:
+        lines.insert(rng.randint(0, len(lines)), rng.choice(['', 'b2 0.5', 'novalue']))
+    text = ''.join(l + '\n' for l in lines)
+    with core.scratch(TOML):
+        B = build(names, tag)
+        sn = list(B.free_beta_names)
+        before = [float(v) for v in B.id_manager.free_betas_values]
+        Path(f'__{tag}.iter').write_text(text, encoding='utf-8')
+        try:
+            B._load_saved_iteration()
+            got = {'values': [float(v) for v in B.id_manager.free_betas_values]}
+        except Exception as e:  # noqa: BLE001
+            got = {'error': type(e).__name__}
+    case = {'load': True, 'names': names, 'text': text}
+    res.count(case, nontrivial=bool(lines))
+    res.tally('load malformed' if malformed else 'load')
+    if not malformed:
+        # oracle from the statement
+        last = {}
+        for l in lines:
+            n, v = l.rsplit('=', 1)
+            last[n.strip()] = float(v)
+        exp = [last.get(n, b) for n, b in zip(sn, before)]
+        if 'error' in got:
+            res.violate(f'restart from a well-formed file fails: {got["error"]}', case, got, exp, where='_load_saved_iteration')
+        elif [f2b(v) for v in got['values']] != [f2b(v) for v in exp]:
+            res.violate('a later estimation does not start from the saved values', case, got['values'], exp, where='_load_saved_iteration')
+
+    def cb(ans):
+        a = ans[0]
+        if 'error' in a or 'error' in got:
+            if a.get('error') != got.get('error'):
+                res.diverge('_load_saved_iteration on a file with a line without "="', case, a, got)
+            return
+        mv = [float(v) for _, v in a['inits']]
+        if [f2b(v) for v in mv] != [f2b(v) for v in got['values']]:
+            res.diverge('starting values after _load_saved_iteration (file not written by this model)', case, a['inits'], got['values'])
+
+    ctx.batch.add_many([{'op': 'load', 'inits': [[n, repr(b)] for n, b in zip(sn, before)], 'lines': lines}], cb)
 
 
 def estimate_restart(ctx, res, names, saved, tag):
@@ -887,15 +1561,25 @@ def search(ctx, res, broken):
     """something broke without a concrete failing input: widen the generated stream and apply the
     property oracle on the real code"""
     rng = core.rng_for('C15-search', ctx.seed)
-    for i in range(150):
+    texts = ' '.join(str(d.get('what', '')) for d in res.divergences)
+    protocol_first = any(w in texts for w in ('crash', 'protocol', 'primitive', 'directory after a stop', 'unexpected files'))
+    if protocol_first:
+        r2 = Result()
+        if crash_search(r2, rng):
+            res.violations.extend(r2.violations[:1])
+            return
+    for i in range(100):
         k = rng.randint(1, 3)
         names = rng.sample(NAME_POOL, k)
         name0, ops = gen_session(rng, k)
         r2 = Result()
-        if apply_session_oracle(r2, session_case(names, name0, ops), run_session(names, name0, ops)):
-            res.violations.extend(r2.violations[:1])
-            return
-    for i in range(300):
+        algo = pick_algo(rng, ops)
+        if apply_session_oracle(r2, session_case(names, name0, ops, algo), run_session(names, name0, ops, algo=algo)):
+            keep = [v for v in r2.violations if v.get('where') != WHERE_BOOT or not any(f.get('id') == 'FC15-boot' and f.get('kind') == 'known' for f in ctx.findings)]
+            if keep:
+                res.violations.extend(keep[:1])
+                return
+    for i in range(150):
         k = rng.randint(1, 3)
         names = rng.sample(NAME_POOL, k)
         pts = gen_history(rng, k)
@@ -916,6 +1600,10 @@ def search(ctx, res, broken):
         if r2.violations:
             res.violations.extend(r2.violations[:1])
             return
+    if not protocol_first:
+        r2 = Result()
+        if crash_search(r2, rng, n=1):
+            res.violations.extend(r2.violations[:1])
 
 
 def replay(ctx, obj):
@@ -923,8 +1611,8 @@ def replay(ctx, obj):
     out = {'replayed': obj.get('what')}
     if case.get('session'):
         r = Result()
-        o = run_session(case['names'], case['name0'], case['ops'])
-        fails = apply_session_oracle(r, session_case(case['names'], case['name0'], case['ops']), o)
+        o = run_session(case['names'], case['name0'], case['ops'], algo=case.get('algo'))
+        fails = apply_session_oracle(r, session_case(case['names'], case['name0'], case['ops'], case.get('algo')), o)
         out.update({'property_fails': bool(fails), 'why': r.violations[0]['what'] if r.violations else None,
                     'recorded': session_view(o['events'], len(o['events']))})
     elif 'points' in case:
@@ -938,11 +1626,34 @@ def replay(ctx, obj):
         if restart and not restart['ok']:
             fails = fails or restart['error']
         out.update({'observed': [s['file'] for s in steps], 'f': [s['f'] for s in steps], 'property_fails': bool(fails), 'why': fails})
+    elif case.get('load'):
+        with core.scratch(TOML):
+            B = build(case['names'], 'replay')
+            sn = list(B.free_beta_names)
+            before = [float(v) for v in B.id_manager.free_betas_values]
+            Path('__replay.iter').write_text(case['text'], encoding='utf-8')
+            last = {}
+            for l in case['text'].split('\n')[:-1]:
+                n, v = l.rsplit('=', 1)
+                last[n.strip()] = float(v)
+            exp = [last.get(n, b) for n, b in zip(sn, before)]
+            try:
+                B._load_saved_iteration()
+                vals = [float(v) for v in B.id_manager.free_betas_values]
+                fails = [f2b(v) for v in vals] != [f2b(v) for v in exp]
+                out.update({'property_fails': bool(fails), 'values': vals, 'expected': exp})
+            except Exception as e:  # noqa: BLE001
+                out.update({'property_fails': True, 'why': f'{type(e).__name__}: {e}'})
     elif 'crash_after' in case:
+        # the stored crash point on the real code: child stopped with os._exit after that primitive / line, then the
+        # real restart
         r = Result()
-        crash_experiment(ctx, r, case['names'], 'replay', case.get('x_old'), case['x_new'])
-        ctx.batch.items.clear()
-        out.update({'property_fails': bool(r.violations), 'violations': r.violations[:2]})
+        lines = case.get('crash_unit') == 'executed line'
+        o = run_crash_worker(crash_payload(case['names'], 'replay', case.get('x_old'), case['x_new'], ks=[case['crash_after']], lines=lines,
+                                           estimate=len(case['names']) <= 3, mode=case.get('mode')))
+        fails = apply_crash_oracle(r, o, case['names'], case.get('x_old'), case['x_new'], lines=lines, mode=case.get('mode'))
+        out.update({'property_fails': bool(fails), 'why': r.violations[0]['what'] if r.violations else None,
+                    'directory': (o.get('points') or [{}])[0].get('state'), 'errors': o.get('errors')})
     else:
         out.update({'property_fails': False, 'note': 'nothing to replay (no concrete input in this file)'})
     return out
